@@ -8,6 +8,9 @@
 (*          set_footer, set_implicit_assertion, build (8 actions, C13)     *)
 (*   "c14": GenericBuilder, set_claim / remove_claim over 3 keys x 2       *)
 (*          values, build (10 actions, C14)                                *)
+(*   "c05b" / "c05g": PasetoBuilder / GenericBuilder, set_footer and       *)
+(*          set_implicit_assertion with two values each and the empty      *)
+(*          string, a custom claim, build (C05 / C06 at the builder layers)*)
 (* In every reachable builder state the properties of Builder.tla are      *)
 (* checked; every history that ends in build is printed for replay.        *)
 (***************************************************************************)
@@ -18,7 +21,7 @@ CONSTANTS MaxLen, Family, Emit
 VARIABLES b, hist
 vars == <<b, hist>>
 
-Layer == IF Family = "c14" THEN "generic" ELSE "prelude"
+Layer == IF Family \in {"c14", "c05g"} THEN "generic" ELSE "prelude"
 
 \* the value a caller passes the n-th time it supplies a key
 NthVal(n) == CASE n = 0 -> "v1" [] n = 1 -> "v2" [] OTHER -> "v3"
@@ -30,6 +33,10 @@ Alphabet ==
     [] Family = "c13" -> SetOps({"exp", "iat", "nbf", "ca"})
                            \cup {Op("ack", "", ""), Op("footer", "", "f1"), Op("assertion", "", "a1"), Op("build", "", "")}
     [] Family = "c13t" -> SetOps({"nbf"}) \cup {Op("tick", "", ""), Op("ack", "", ""), Op("build", "", "")}
+    [] Family \in {"c05b", "c05g"} ->
+                         {Op("footer", "", f) : f \in {"f1", "f2", "empty"}}
+                           \cup {Op("assertion", "", a) : a \in {"a1", "a2", "empty"}}
+                           \cup {Op("build", "", "")}
     [] Family = "c14" -> {Op("set", k, v) : k \in {"iss", "ca", "cb"}, v \in {"v1", "v2"}}
                            \cup {Op("remove", k, "") : k \in {"iss", "ca", "cb"}}
                            \cup {Op("extend", "cb", "v1"), Op("extendw", "cb", "v1")}
